@@ -38,6 +38,9 @@ func countInstrs(fn *ssa.Function) int {
 	return n
 }
 
+// obligationBudget caps the obligation instances generated for one function (the unchanged tree stays far below).
+const obligationBudget = 80000
+
 // verifyFunc generates every obligation of one function under contract.
 func (e *Engine) verifyFunc(fn *ssa.Function, fc *FuncContract) *FuncReport {
 	name := shortFn(fn)
@@ -48,6 +51,7 @@ func (e *Engine) verifyFunc(fn *ssa.Function, fc *FuncContract) *FuncReport {
 	e.root = fn
 	defer func() { e.root = nil }()
 	work := [][]int{{}}
+	afterUnsup := 0
 	unsupSeen := map[string]bool{}
 	unmodSeen := map[string]bool{}
 	noteSeen := map[string]bool{}
@@ -61,6 +65,17 @@ func (e *Engine) verifyFunc(fn *ssa.Function, fc *FuncContract) *FuncReport {
 		if rep.Paths > 20000 {
 			rep.Unsupported = append(rep.Unsupported, "path budget exceeded")
 			break
+		}
+		if len(rep.Obligations) > obligationBudget {
+			rep.Unsupported = append(rep.Unsupported, fmt.Sprintf("verification-condition budget exceeded (%d obligation instances)", len(rep.Obligations)))
+			break
+		}
+		if len(rep.Unsupported) > 0 {
+			// the proof of this function is lost already; a few more paths are explored for the sake of a more telling
+			// report (a failing postcondition with a counterexample), not all of them
+			if afterUnsup++; afterUnsup > 60 {
+				break
+			}
 		}
 		s := e.newState(dec, name)
 		s.unfoldCRC = fc.Options["unfold-crcfold"]
